@@ -134,17 +134,26 @@ func checkC17(p *Prog, res *Result, tier string) {
 	}
 	inScanner := func(f *ssa.Function) bool { return f.Pkg == spk }
 	var expChains []callChain
+	// the expiry function: the scanner function that reads the worker's timeout revision and from which an engine
+	// delete is reachable (whether it consults SupportTTL is R5's question, not part of the role)
+	toF := p.structField("pkg/backend/scanner", "workerConfig", "timeoutRevision")
 	for _, f := range p.AllFuncs {
 		if f.Pkg != spk || f.Synthetic != "" || f.Parent() != nil {
 			continue
 		}
-		ttl := false
-		for _, c := range callsIn(f) {
-			if c.Common().IsInvoke() && c.Common().Method == r.KVSupportTTL {
-				ttl = true
+		reads := false
+		for _, b := range f.Blocks {
+			for _, ins := range b.Instrs {
+				if fa, ok := ins.(*ssa.FieldAddr); ok && fieldOf(fa) == toF {
+					for _, ref := range *fa.Referrers() {
+						if u, ok := ref.(*ssa.UnOp); ok && u.Op == token.MUL {
+							reads = true
+						}
+					}
+				}
 			}
 		}
-		if !ttl {
+		if !reads {
 			continue
 		}
 		chs := enumerateChains(p, f, isEngineDelete, inScanner, 5)
@@ -388,14 +397,28 @@ func checkC17(p *Prog, res *Result, tier string) {
 		if f.Pkg != p.ssaPkg("pkg/backend/scanner") {
 			continue
 		}
-		for _, c := range callsIn(f) {
-			for _, callee := range p.calleesOf(c) {
-				cu := unwrapSynthetic(callee)
-				if cu == r.Sink || cu == w.fanout || cu == w.hubLoop || cu == w.register || cu == w.cacheAdd {
-					hit = funcName(f) + " -> " + funcName(cu)
+		// transitively: through helpers, interface implementations, function values (struct fields, package variables)
+		seen := map[*ssa.Function]bool{}
+		var walk func(g *ssa.Function, path string, d int)
+		walk = func(g *ssa.Function, path string, d int) {
+			if seen[g] || d > 5 || hit != "" || g.Blocks == nil {
+				return
+			}
+			seen[g] = true
+			for _, c := range callsIn(g) {
+				for _, callee := range p.calleesOf(c) {
+					cu := unwrapSynthetic(callee)
+					if cu == r.Sink || cu == w.fanout || cu == w.hubLoop || cu == w.register || cu == w.cacheAdd {
+						hit = path + " -> " + funcName(cu)
+						return
+					}
+					if cu.Pkg != nil && strings.HasPrefix(cu.Pkg.Pkg.Path(), modPath) && !strings.Contains(cu.Pkg.Pkg.Path(), "/pkg/storage") && !strings.Contains(cu.Pkg.Pkg.Path(), "/pkg/metrics") {
+						walk(cu, path+" -> "+funcName(cu), d+1)
+					}
 				}
 			}
 		}
+		walk(f, funcName(f), 0)
 	}
 	if hit == "" {
 		res.ok("C17-R4", "scanner package: no call into the event pipeline", "-", "no function of pkg/backend/scanner calls the event sink, the hub or the event cache")
